@@ -53,6 +53,10 @@ pub fn run(args: &Args, r: &mut Report) {
             mask.push(if a.day.is_some() { 'D' } else { '.' });
         }
         case.shape.push(mask);
+        if rng.chance(1, 3) {
+            case.crash_at = Some(rng.below(200));
+            case.shape.push("crash".into());
+        }
         case.script.checks.push(gen_check(&mut rng, &apps, Path::NoUpdate, cfg.cup, true, false).0);
         case.script.decisions.push(Decision::Ok(ParamsSnap::default_lib()));
         let run = run_case_restart(&case, &[next], &mut rng, 1);
